@@ -15,6 +15,7 @@ import (
 	"os"
 	"path"
 	"path/filepath"
+	"sort"
 	"strconv"
 	"strings"
 	"sync/atomic"
@@ -1220,6 +1221,9 @@ func (r *siteRig) judge() {
 				c.Violate("C12/status-differs", fmt.Sprintf("want=%d/directive", wantStatus), "request %s (%s %s): client got status %d, want %d", q.id, q.method, q.path, resp.Status, wantStatus)
 			}
 		}
+		if (mode == "C12" || mode == "C18") && sc.mode == "write" && sc.panicAt < 0 && !sc.accel && resp.Status == wantStatus && !(r.hasAuth && strings.HasPrefix(q.path, "/p/auth") && !q.auth) {
+			r.judgeHeaderSet(q, resp)
+		}
 		// decoded body
 		dec, derr := decodeBody(resp.Header.Get("Content-Encoding"), resp.Body)
 		bodyless := q.method == "HEAD" || resp.Status == 204 || resp.Status == 304
@@ -1303,6 +1307,53 @@ func (sc *pscript) fullBody() []byte {
 		b = append(b, w...)
 	}
 	return b
+}
+
+// siteRespAllowed: the header fields a response written by the scripted handler may carry: what
+// the handler set, what the configured directives add, and the front server's own fields.
+var siteRespAllowed = map[string]bool{
+	"Content-Type": true, "Content-Length": true, "Content-Encoding": true, "Etag": true, // the handler's (net/http sniffs a missing type)
+	"Vary":    true, // gzip
+	"X-Extra": true, // header directive
+	"Link":    true, // Early Hints repeat their Link field in the final response (the handler added it to the map)
+	"Server":  true, "Date": true, "Connection": true, "Transfer-Encoding": true,
+}
+
+// judgeHeaderSet: a response the handler wrote reaches the client with the handler's header
+// "unaltered apart from configured header and encoding changes": no field from nowhere, and no
+// single-valued field twice.
+func (r *siteRig) judgeHeaderSet(q *sreq, resp *sim.Resp) {
+	c := r.c
+	var keys []string
+	for k := range resp.Header {
+		keys = append(keys, k)
+	}
+	sort.Strings(keys)
+	for _, k := range keys {
+		vs := resp.Header.Values(k)
+		if r.hasTemplates && (k == "Accept-Ranges" || k == "Last-Modified") {
+			continue // templates hands its rendering to http.ServeContent
+		}
+		if !siteRespAllowed[k] {
+			c.Violate("C12/header-invented", k, "request %s (%s %s): the client received header %s: %q, which neither the handler nor a configured directive sets (%s)", q.id, q.method, q.path, k, vs, r.dirSig())
+			continue
+		}
+		if len(vs) > 1 && k != "Link" && k != "Vary" {
+			c.Violate("C12/header-repeated", k, "request %s (%s %s): header %s arrived %d times: %q (%s)", q.id, q.method, q.path, k, len(vs), vs, r.dirSig())
+		}
+		if k == "Vary" {
+			seen := map[string]bool{}
+			for _, v := range vs {
+				for _, t := range strings.Split(v, ",") {
+					t = strings.ToLower(strings.TrimSpace(t))
+					if seen[t] {
+						c.Violate("C12/header-repeated", "Vary", "request %s (%s %s): Vary names %q twice: %q (%s)", q.id, q.method, q.path, t, vs, r.dirSig())
+					}
+					seen[t] = true
+				}
+			}
+		}
+	}
 }
 
 func (r *siteRig) judgeBody(q *sreq, resp *sim.Resp, dec []byte, derr error, bodyless bool, wantStatus int) {
